@@ -21,6 +21,6 @@ PLAN = dict(
         # the command-line entry point of the same signer (sign-bundle signatures-section), which is anchored in this property too; the sub-check lives in the CLI package c20
         dict(name="cli", pkg="c20", run="^(TestPropSignSections|TestFixedSignSections)$", checks=(25, 750), shards=(1, 16), timeout=(300, 3600)),
     ],
-    require=[("sign-sections", "covered"), ("sign-sections", "date-numeric-zone"), ("signatures", "signers-2"), ("signatures", "decoy-refused:dup"), ("signatures", "decoy-refused:unencodable"), ("signatures", "signers-3"), ("signatures", "via-file"), ("signatures", "verified"), ("signatures", "rejected-newverifier"),
+    require=[("sign-sections", "covered"), ("sign-sections", "date-numeric-zone"), ("signatures", "signers-2"), ("signatures", "decoy-offered:dup"), ("signatures", "decoy-offered:unencodable"), ("signatures", "signers-3"), ("signatures", "via-file"), ("signatures", "verified"), ("signatures", "rejected-newverifier"),
              ("signatures", "rejected-exchange"), ("signatures", "has-uncovered"), ("signatures", "tamper:authority"), ("signatures", "tamper:auth-samekey-cert"), ("signatures", "time:end+1")],
 )
